@@ -200,7 +200,20 @@ static Plan plan_C03(Rng& r, const std::string&) {
 				}
 			}
 			if (r.chance(1, 2)) g.mutate_ops(r.range(1, 3), pool);     // results share storage with the operand: both must keep their value
-			if (r.chance(1, 4)) { g.push(mk(c, "et_destroy", {a})); g.removed(a); }
+			// the questions are asked again of automata with a history: assigned over, moved, copied, modified in place
+			if (r.chance(1, 2)) {
+				if (r.chance(2, 3)) g.value_ops(r.range(1, 2));
+				int q = r.range(1, 3);
+				for (int i = 0; i < q && !g.alpha.empty(); ++i) {
+					int h = g.any();
+					switch (r.below(4)) {
+						case 0: g.push(mk(c, "et_unreach", {h, long(r.below(2))}), 0); break;
+						case 1: g.push(mk(c, "et_useless", {h, long(r.below(2))}), 0); break;
+						default: g.push(mk(c, "et_is_empty", {h})); break;
+					}
+				}
+			}
+			if (r.chance(1, 4) && !g.alpha.empty()) { int h = g.any(); g.push(mk(c, "et_destroy", {h})); g.removed(h); }
 		}
 		progs.push_back(g.out);
 	}
